@@ -93,8 +93,18 @@ Chk(c, ok, d) ==
                                      apis |-> {C.plan[i].api : i \in Acc(C.plan)},
                                      overlap |-> Overlap, sa_arms |-> SaArms])>>)
 
+\* distinct relative depths a branch at plan entry i can go to
+NTargets(i) ==
+    IF C.plan[i].site < 0 THEN 0
+    ELSE LET c == C.orig[C.plan[i].site + 1] IN
+         IF c.o = "br_table" THEN Cardinality({c.ds[x] : x \in DOMAIN c.ds} \cup {c.d})
+         ELSE IF c.o \in {"br", "br_if"} THEN 1 ELSE 0
+InLoop(i) == C.plan[i].site >= 0 /\
+             \E x \in DOMAIN OpenKinds(C.orig, 1, C.plan[i].site + 1, <<>>) :
+                 OpenKinds(C.orig, 1, C.plan[i].site + 1, <<>>)[x] = "loop"
 EntryD(i) == [mode |-> C.plan[i].mode, api |-> C.plan[i].api, site |-> C.plan[i].site,
-              sop |-> SiteOp(i), tfn |-> ("fn" \in TKinds(i)), tloop |-> ("loop" \in TKinds(i))]
+              sop |-> SiteOp(i), tfn |-> ("fn" \in TKinds(i)), tloop |-> ("loop" \in TKinds(i)),
+              ntgt |-> NTargets(i), inloop |-> InLoop(i)]
 
 Static ==
     /\ phase = "static"
@@ -174,7 +184,10 @@ Compare ==
                   Chk("probe_mismatch", FALSE,
                       IF EntryOfProbe(p) = 0
                       THEN [mode |-> "none", api |-> "none", p |-> p, ideal |-> Str(mi.ev), low |-> Str(ml.ev)]
-                      ELSE EntryD(EntryOfProbe(p)) @@ [p |-> p, ideal |-> Str(mi.ev), low |-> Str(ml.ev)])
+                      ELSE EntryD(EntryOfProbe(p)) @@
+                           [p |-> p, ideal |-> Str(mi.ev), low |-> Str(ml.ev),
+                            more |-> (Cardinality({x \in DOMAIN ml.ev : ml.ev[x].e = "probe" /\ ml.ev[x].p = p})
+                                      > Cardinality({x \in DOMAIN mi.ev : mi.ev[x].e = "probe" /\ mi.ev[x].p = p}))])
 
 StepLow ==
     /\ phase = "low"
